@@ -132,6 +132,11 @@ class World:
             if 'output file' in what and got[3] and want[3] and got[3][0] == want[3][0] and got[3][1] == want[3][1] & ~0o027:
                 self.fails.append({'kind': 'output_mode_masked_by_server_umask', 'detail': f'mode {got[3][1]:o} instead of {want[3][1]:o} ({cls})', 'ops': list(self.trace)})
                 what.remove('output file')
+            if 'output file' in what and got[3] and want[3] and got[3][0] == want[3][0] and got[3][1] != want[3][1] and getattr(self, 'entry_byte_flipped', False):
+                #   F-C09-c  a byte of a result entry was flipped behind the server: the permission bits of a member live in the zip directory, outside
+                #            every checksum — the entry still verifies and the object is restored with the damaged mode (bytes equal)
+                self.fails.append({'kind': 'output_mode_from_damaged_entry', 'detail': f'one byte of a result entry flipped: object restored with mode {got[3][1]:o}, the direct compile creates {want[3][1]:o} (bytes equal, {cls})', 'ops': list(self.trace)})
+                what.remove('output file')
             warn = b"treating 'c' input as 'c++' when in C++ mode"
             if 'stderr' in what and warn in want[2] and warn not in got[2] and b'\n'.join(l for l in want[2].split(b'\n') if warn not in l) == got[2]:
                 self.fails.append({'kind': 'clangxx_c_input_warning_dropped', 'detail': f'the direct compile prints the driver warning "treating \'c\' input as \'c++\'", the wrapped one does not ({cls})', 'ops': list(self.trace)})
@@ -251,7 +256,9 @@ def inject_fault(w, rng):
     if k == 5: os.remove(f); os.mkdir(f); return f'fault: {kind} replaced by a directory'
     b = bytearray(open(f, 'rb').read())
     if b: b[rng.randrange(len(b))] ^= 0x41
-    open(f, 'wb').write(bytes(b)); return f'fault: one byte of a {kind} flipped'
+    open(f, 'wb').write(bytes(b))
+    if kind == 'result entry': w.entry_byte_flipped = True
+    return f'fault: one byte of a {kind} flipped'
 
 def run_fault_histories(root, tag, compiler, seed, n_hist, n_req, sc_env=None):
     rng = random.Random(seed); fails = []; reqs = 0; kinds = {}; samples = []
@@ -279,6 +286,29 @@ def run_fault_histories(root, tag, compiler, seed, n_hist, n_req, sc_env=None):
         finally:
             w.sc.stop(); shutil.rmtree(w.root, ignore_errors=True)
     return {'requests': reqs, 'fault_kinds': kinds, 'fails': fails, 'samples': samples}
+
+def run_mode_flip(root, tag, compiler):
+    """deterministic witness of F-C09-c: one bit of the permission bits the zip directory records for the object is flipped behind the server"""
+    w = World(os.path.join(root, 'modeflip'), tag + 'mf', compiler, random.Random(1), direct_mode=False)
+    w.sc.start(); done = False
+    try:
+        w.request('first'); w.sc.stop()
+        for dp, _, fs in os.walk(w.sc.cache):
+            for f in fs:
+                p = os.path.join(dp, f)
+                if '/preprocessor/' in p or done: continue
+                b = bytearray(open(p, 'rb').read()); i = b.find(b'PK\x01\x02')
+                while i >= 0:
+                    n = int.from_bytes(b[i + 28:i + 30], 'little')
+                    if bytes(b[i + 46:i + 46 + n]) == b'obj':
+                        b[i + 40] ^= 0x80; open(p, 'wb').write(bytes(b)); done = True; w.entry_byte_flipped = True
+                        w.trace.append(f'fault: one bit of the mode the zip directory records for member obj flipped in {os.path.relpath(p, w.sc.cache)}'); break
+                    i = b.find(b'PK\x01\x02', i + 4)
+        w.sc.start()
+        if done: w.request('fault: one byte of a result entry flipped (the permission bits of the object)')
+        return {'requests': 2, 'flipped': done, 'fails': [f for f in w.fails if f['kind'] not in KNOWN_DEVIATIONS][:2], 'samples': [' ; '.join(w.trace[-3:])]}
+    finally:
+        w.sc.stop(); shutil.rmtree(w.root, ignore_errors=True)
 
 # ------------------------------------------------------------------------------------------------ read-only cache (C15)
 def run_readonly(root, tag, compiler, seed, n_hist, n_req, oversize=False, damage=True, conf='env'):
